@@ -341,6 +341,19 @@ func init() {
 			if idx%300 == 17 && idx < 1000 {
 				return c16Large(r, idx)
 			}
+			if idx%40 == 9 { // keys of 33 and more segments, with siblings below the same long prefix
+				n := 31 + r.Intn(10)
+				segs := make([]string, n)
+				for i := range segs {
+					segs[i] = c16Segs[r.Intn(len(c16Segs))]
+				}
+				pre := strings.Join(segs, ".")
+				kv := map[string]string{pre + ".x.leaf": "deep", pre + ".x.other": "2", pre + ".y": "3", "top": "t"}
+				return c16Case(r, kv, idx%3)
+			}
+			if idx%40 == 29 {
+				return c16Tiny(r, idx)
+			}
 			return c16Case(r, c16GenKV(r, idx%2 == 0), idx%3)
 		},
 	})
@@ -359,4 +372,37 @@ func (f *failOnceW) Write(p []byte) (int, error) {
 		return 0, errors.New("write refused once")
 	}
 	return len(p), nil
+}
+
+// texts of fewer than four bytes, the empty one included, through the decoder and through the file-suffix provider:
+// exactly the written pairs (Go side only)
+func c16Tiny(r *rand.Rand, idx int) Case {
+	texts := []struct {
+		text string
+		want map[string]any
+	}{
+		{"", map[string]any{}}, {"a", map[string]any{"a": ""}}, {"a=", map[string]any{"a": ""}}, {"\n", map[string]any{}}, {"a=1", map[string]any{"a": "1"}},
+		{"a:", map[string]any{"a": ""}}, {"#", map[string]any{}}, {"ab", map[string]any{"ab": ""}}, {"a\n", map[string]any{"a": ""}},
+	}
+	t := texts[r.Intn(len(texts))]
+	var fail []string
+	for name, dec := range map[string]dom.DecoderFunc{"props.DecoderFn": props.DecoderFn, "DefaultFileDecoderProvider(x.properties)": common.DefaultFileDecoderProvider("x.properties")} {
+		var d dom.ContainerBuilder
+		var err error
+		if pn := guard(func() { d, err = dom.Builder().FromReader(strings.NewReader(t.text), dec) }); pn != "" {
+			fail = append(fail, fmt.Sprintf("%s panicked on %q: %s", name, t.text, pn))
+		} else if err != nil {
+			fail = append(fail, fmt.Sprintf("%s on the %d-byte text %q: %v", name, len(t.text), t.text, err))
+		} else if got := nodeToAny(d); !reflect.DeepEqual(got, any(t.want)) {
+			fail = append(fail, fmt.Sprintf("%s on %q gives %v, expected %v", name, t.text, got, t.want))
+		}
+	}
+	// an empty flat map written by the file-suffix encoder reads back through the file-suffix decoder
+	var b bytes.Buffer
+	if err := common.DefaultFileEncoderProvider("y.properties")(&b, map[string]any{}); err != nil {
+		fail = append(fail, "encoding an empty map failed: "+err.Error())
+	} else if d, err := dom.Builder().FromReader(&b, common.DefaultFileDecoderProvider("y.properties")); err != nil || len(d.Children()) != 0 {
+		fail = append(fail, fmt.Sprintf("an empty map written by the properties encoder does not read back as an empty document (err=%v)", err))
+	}
+	return Case{Kind: "decode-tiny", Desc: map[string]any{"text": t.text}, Fail: fail, Nontrivial: true, Key: fmt.Sprint("tiny", t.text, idx)}
 }
